@@ -47,6 +47,7 @@ fn eval(op: &str, args: &[&str]) -> Option<Vec<String>> {
         "client" => client::client(args),
         "tls" => tlsop::tls(args),
         "pool" => poolop::pool(args),
+        "tconn" => poolop::tconn(args),
         "wstall" => poolop::wstall(args),
         "ctor" => tlsop::ctor(args),
         "racc" => c15::racc(args),
